@@ -152,6 +152,16 @@ def run_table(shard, ctx):
         if fs.sequence != r or fs.rev_comp().sequence != s:
             ctx.violation("fastaseq-rev-comp", f"{s[:40]!r}", {"kind": "bytes", "data": base64.b64encode(s).decode()})
         ctx.count("random-bytes")
+    # chromosome-sized inputs: around and beyond 1 MiB, multiples and non-multiples of it
+    rng = rng_for(shard["seed"], "c14big", shard["index"])
+    for n in (2**20 - 1, 2**20 + 1, 2 * 2**20 + rng.randint(1, 99999), 3 * 2**20):
+        block = bytes(rng.choice(b"ACGTNacgtnRYKM") for _ in range(4099))
+        s = (block * (n // 4099 + 1))[:n]
+        ctx.case()
+        r = reverse_complement(s)
+        ctx.count("big-bytes")
+        if len(r) != n or r != fasta_ref.revcomp(s) or reverse_complement(r) != s:
+            ctx.violation("reverse-complement-of-long-input", f"length {n}: result length {len(r)}, equal to reference: {r == fasta_ref.revcomp(s)}", {"kind": "bigbytes", "n": n})
     ctx.sample({"bytes": "ACGTRYKMBDHVNacgtn-*", "reverse_complement": fasta_ref.revcomp(b"ACGTRYKMBDHVNacgtn-*").decode()})
 
 
@@ -205,6 +215,9 @@ def check_stream_law(ctx, data, sc, bs, scratch):
                 held_bad = ("two-iterators-in-step-differ", r, b"".join(a for a, _ in pair), want_r)
             if held_bad:
                 break
+    except Exception as e:  # noqa: BLE001 - streaming a valid scaffold (either way round) must not fail
+        ctx.violation(f"streaming-raised-{type(e).__name__}", f"scaffold {sc} buffer={bs}: {type(e).__name__}: {e}", case)
+        return
     finally:
         fh = fi.__dict__.get("fasta_fileandle")
         if fh:
@@ -290,6 +303,7 @@ def gates(c, tier):
     need = {
         "table:bytes": 256,
         "random-bytes": 1000,
+        "big-bytes": 4,
         "streamlaw:known-strands": 1500,
         "streamlaw:with-unknown-strand": 200,
         "direct:reverse-of-edited-reversed-scaffold": 1500,
